@@ -19,12 +19,14 @@ type Loader struct {
 	pkgs    map[string]*packages.Package // by import path (with syntax)
 	byPath  map[string]*types.Package
 	byName  map[string]*types.Package
+	// every known package of a given name (short qualifiers such as "internal" are ambiguous)
+	byNameAll map[string][]*types.Package
 	decls   map[string]*ast.FuncDecl // funcKey -> decl
 	declPkg map[string]*packages.Package
 }
 
 func NewLoader(repoDir string) *Loader {
-	return &Loader{RepoDir: repoDir, pkgs: map[string]*packages.Package{}, byPath: map[string]*types.Package{}, byName: map[string]*types.Package{}, decls: map[string]*ast.FuncDecl{}, declPkg: map[string]*packages.Package{}}
+	return &Loader{RepoDir: repoDir, pkgs: map[string]*packages.Package{}, byPath: map[string]*types.Package{}, byName: map[string]*types.Package{}, byNameAll: map[string][]*types.Package{}, decls: map[string]*ast.FuncDecl{}, declPkg: map[string]*packages.Package{}}
 }
 
 // Load loads the given import paths (relative to the repo module or full) with syntax and types.
@@ -98,6 +100,41 @@ func (l *Loader) Load(paths ...string) error {
 	return nil
 }
 
+// resolveShort resolves a short package qualifier written in the context of package `from`: the package
+// itself, one of its direct imports, a package whose path ends in from's directory + "/" + name, and only
+// then a package of that name if it is the only one known. An ambiguous name resolves to nil.
+func (l *Loader) resolveShort(name, from string) *types.Package {
+	if p, ok := l.byPath[name]; ok {
+		return p
+	}
+	if fp := l.byPath[from]; fp != nil {
+		if fp.Name() == name {
+			return fp
+		}
+		for _, q := range fp.Imports() {
+			if q.Name() == name {
+				return q
+			}
+		}
+	}
+	all := l.byNameAll[name]
+	if from != "" {
+		var under []*types.Package
+		for _, q := range all {
+			if strings.HasPrefix(q.Path(), from+"/") {
+				under = append(under, q)
+			}
+		}
+		if len(under) == 1 {
+			return under[0]
+		}
+	}
+	if len(all) == 1 {
+		return all[0]
+	}
+	return nil
+}
+
 func (l *Loader) index(p *types.Package) {
 	if p == nil || l.byPath[p.Path()] != nil {
 		return
@@ -106,6 +143,7 @@ func (l *Loader) index(p *types.Package) {
 	if _, dup := l.byName[p.Name()]; !dup {
 		l.byName[p.Name()] = p
 	}
+	l.byNameAll[p.Name()] = append(l.byNameAll[p.Name()], p)
 	for _, q := range p.Imports() {
 		l.index(q)
 	}
